@@ -22,7 +22,7 @@ def main():
     target_prop = meta.get("property", sid.split("-")[0])
     import re as _re
     if not _re.fullmatch(r"C\d\d", str(target_prop)):
-        bp = meta.get("breaks_property") or meta.get("main_property")
+        bp = meta.get("breaks_property") or meta.get("breaks") or meta.get("main_property")
         if isinstance(bp, list):
             bp = bp[0] if bp else None
         target_prop = bp if bp and _re.fullmatch(r"C\d\d", str(bp)) else sid.split("-")[0]
